@@ -215,32 +215,68 @@ def make_function(name, is_mw, params_req=(), params_opt=(), kw_req=(), kw_opt=(
 _TYPE_CACHE = {}
 
 
-def make_mw_type(key, unique, reorderable, funcs, wsgi=False):
+def _hook_factory(ph, spec):
+    """Plain-function hooks made by ONE factory: every instance's hook has the same __name__ and __module__
+    (like ContextProcessor's render hooks, or any middleware doing self.request = make_hook() in __init__)."""
+    f = make_function(ph, True, spec.get('req', ()), spec.get('opt', ()), spec.get('kwreq', ()), spec.get('kwopt', ()),
+                      spec.get('provides', ()), bound=False)
+    return f
+
+
+def make_mw_type(key, unique, reorderable, funcs, wsgi=False, base=None, hooks='method'):
     """One class object per type key: Middleware equality is type equality.
 
-    funcs: {'request'|'endpoint'|'render': {'req':[], 'opt':[], 'kwreq':[], 'kwopt':[], 'provides':[]}}"""
-    ck = (key, unique, reorderable, repr(sorted((k, sorted(v.items())) for k, v in funcs.items())))
+    funcs: {'request'|'endpoint'|'render': {'req':[], 'opt':[], 'kwreq':[], 'kwopt':[], 'provides':[]}}
+    base:  another class made here (the new type is a SUBCLASS of it -- still a different type)
+    hooks: 'method' (functions on the class) | 'closure' (plain functions set on the instance in __init__)"""
+    ck = (key, unique, reorderable, repr(sorted((k, sorted(v.items())) for k, v in funcs.items())), id(base), hooks)
     if ck in _TYPE_CACHE:
         return _TYPE_CACHE[ck]
     attrs = {'unique': unique, 'reorderable': reorderable}
+    closures = {}
     for ph, spec in funcs.items():
-        attrs[ph] = make_function(ph, True, spec.get('req', ()), spec.get('opt', ()), spec.get('kwreq', ()),
-                                  spec.get('kwopt', ()), spec.get('provides', ()))
+        if hooks == 'closure':
+            closures[ph] = spec
+            attrs[ph] = None
+        else:
+            attrs[ph] = make_function(ph, True, spec.get('req', ()), spec.get('opt', ()), spec.get('kwreq', ()),
+                                      spec.get('kwopt', ()), spec.get('provides', ()))
         pattr = {'request': 'provides', 'endpoint': 'endpoint_provides', 'render': 'render_provides'}[ph]
         attrs[pattr] = tuple(spec.get('provides', ()))
 
     def __init__(self, sim_name):
         self._sim_name = sim_name
+        for ph, spec in closures.items():
+            hook = _hook_factory(ph, spec)
+            # the generated function refers to its layer by name: bind it
+            hook = _bind_name(hook, sim_name + '.' + ph, spec)
+            setattr(self, ph, hook)
 
     def __repr__(self):
         return '<simmw %s>' % self._sim_name
     attrs['__init__'] = __init__
     attrs['__repr__'] = __repr__
-    cls = type(str(key), (Middleware,), attrs)
+    cls = type(str(key), (base or Middleware,), attrs)
     if len(_TYPE_CACHE) > 4000:
         _TYPE_CACHE.clear()
     _TYPE_CACHE[ck] = cls
     return cls
+
+
+def _bind_name(template, layer_name, spec):
+    """A plain function (no self) with the exact signature of *template* whose layer name is fixed."""
+    params_req, params_opt = spec.get('req', ()), spec.get('opt', ())
+    kw_req, kw_opt, provides = spec.get('kwreq', ()), spec.get('kwopt', ()), spec.get('provides', ())
+    sig = ['next'] + list(params_req) + ['%s=DEFAULT' % p for p in params_opt]
+    if kw_req or kw_opt:
+        sig.append('*')
+        sig += list(kw_req) + ['%s=DEFAULT' % p for p in kw_opt]
+    allp = list(params_req) + list(params_opt) + list(kw_req) + list(kw_opt)
+    kwd = '{%s}' % ', '.join('%r: %s' % (p, p) for p in allp)
+    src = 'def hook(%s):\n    return RT.layer(%r, next, %s, %r)\n' % (', '.join(sig), layer_name, kwd, tuple(provides))
+    env = {'RT': RT, 'DEFAULT': DEFAULT, '__name__': 'sim.worlds.chain'}
+    exec(compile(src, '<sim chain hook>', 'exec'), env)
+    return env['hook']
 
 
 # ---------------------------------------------------------------------------
